@@ -162,6 +162,26 @@ func runProc(spec *ProcSpec) (res ProcResult) {
 		defer func() { f.Close(); os.Stdin = oldStdin; os.Remove(stdinPath) }()
 	}
 
+	// stdout: klog prints through fmt.Print* (redirected by the instrumenter); should a change make
+	// it write to os.Stdout directly, that output is collected too (appended after the captured one)
+	oldStdout := os.Stdout
+	stdoutPath := stdinPath + ".out"
+	var stdoutFile *os.File
+	if f, err := os.OpenFile(stdoutPath, os.O_RDWR|os.O_CREATE|os.O_TRUNC, 0o600); err == nil {
+		stdoutFile = f
+		os.Stdout = f
+	}
+	defer func() {
+		os.Stdout = oldStdout
+		if stdoutFile != nil {
+			if b, err := os.ReadFile(stdoutPath); err == nil && len(b) > 0 {
+				res.Stdout += string(b)
+			}
+			stdoutFile.Close()
+			os.Remove(stdoutPath)
+		}
+	}()
+
 	defer func() {
 		if r := recover(); r != nil {
 			// synctest panics when the bubble's root returns while goroutines are still blocked
